@@ -240,13 +240,26 @@ Definition deletes_checked_column (s : schema) (_ : list action) (a : action) : 
 Definition known_C02_check_survives_column_drop (s : schema) (acts : list action) : bool := exists_step deletes_checked_column s acts.
 
 (* ================================================= C05 ================================================= *)
+Fixpoint all_digits (s : string) : bool :=
+  match s with
+  | EmptyString => true
+  | String a r => let n := N_of_ascii a in (N.leb 48 n && N.leb n 57 && all_digits r)%bool
+  end.
+Definition is_numeric_text (s : string) : bool :=
+  let body := match s with String "-"%char r => r | _ => s end in
+  (negb (String.eqb body "") && all_digits body)%bool.
+
 (* ---- C05-parent-rebuild-fk-on (DESIGN D12): some statement of the plan drops a table that a foreign key (of another table,
    or of the table itself) references: with foreign_keys=ON the implicit DELETE fires the ON DELETE action on every
    referencing row (rows deleted / nullified) or fails (RESTRICT, NO ACTION, SET NULL on a NOT NULL column) *)
 Definition drops_of (l : list stmt) : list string :=
   flat_map (fun st => match st with SDropTable t => [t] | _ => [] end) l.
 Definition drops_referenced_table (s : schema) (r : list action) (a : action) : bool :=
-  existsb (fun t => existsb (references t) s) (drops_of (stmts_of (gen s (pending_for a r) a))).
+  let l := stmts_of (gen s (pending_for a r) a) in
+  existsb (fun t => (existsb (references t) s
+                     || existsb (fun st => match st with
+                                           | SCreateTable _ _ _ fks _ => existsb (fun f => String.eqb (sf_table f) t) fks
+                                           | _ => false end) l)%bool) (drops_of l).
 Definition known_C05_parent_rebuild (s : schema) (acts : list action) : bool := exists_step drops_referenced_table s acts.
 
 (* ---- C05-add-column-nonconstant-default: a nullable, non-enum column with a default of CURRENT_TIMESTAMP / CURRENT_DATE /
@@ -261,3 +274,35 @@ Definition adds_nonconstant_default (s : schema) (r : list action) (a : action) 
                      | _ => false end) (stmts_of (gen s (pending_for a r) a)).
 Definition known_C05_add_column_nonconstant_default (s : schema) (acts : list action) : bool :=
   exists_step adds_nonconstant_default s acts.
+
+(* ---- C05-new-key-constant-fill: a unique / primary key whose columns are all added by this plan with a constant fill or
+   default: every existing row receives the same key, CREATE UNIQUE INDEX / the rebuilt table fails as soon as the table
+   holds two rows *)
+Definition added_columns (t : string) (acts : list action) : list string :=
+  flat_map (fun a => match a with AddColumn t' c _ => if String.eqb t' t then [c_name c] else [] | _ => [] end) acts.
+Definition key_of_new_columns (acts : list action) (a : action) : bool :=
+  match a with
+  | AddConstraint t (CUnique _ cols) | AddConstraint t (CPrimaryKey _ cols) =>
+      (nonempty cols && forallb (fun c => mem_str c (added_columns t acts)) cols)%bool
+  | _ => false
+  end.
+Definition known_C05_new_key_constant_fill (_ : schema) (acts : list action) : bool := existsb (key_of_new_columns acts) acts.
+
+(* ---- C05-int-enum-fill-by-name: an integer-enum column is added with a fill value / default that is a (quoted) label NAME
+   (what `revision` proposes, and what the loader demands of a default); the CHECK of an integer enum lists the numeric
+   values, so the copied rows fail it *)
+Definition int_enum_filled_by_name (a : action) : bool :=
+  match a with
+  | AddColumn _ c f =>
+      match c_type c with
+      | TEnum _ (EVInteger _) =>
+          match normalize_fill_with f, c_default c with
+          | Some x, _ => negb (is_numeric_text (trim x))
+          | None, Some d => negb (is_numeric_text (trim (default_to_sql d)))
+          | None, None => false
+          end
+      | _ => false
+      end
+  | _ => false
+  end.
+Definition known_C05_int_enum_fill_by_name (_ : schema) (acts : list action) : bool := existsb int_enum_filled_by_name acts.
